@@ -132,6 +132,7 @@ def setup_worker(ctx):
 
 def response(qr, case, out, E=None, J=None, dip=None, widths=None, pol=None, rot=None, scale=1.0, polrot=None, mult=2, pre_t2=None):
     from quantarhei.spectroscopy.mocktwodcalculator import MockTwoDResponseCalculator
+    base_call = (E is None and J is None and dip is None and widths is None and pol is None and rot is None and polrot is None and scale == 1.0 and mult == 2 and pre_t2 is None)
     E = case["E"] if E is None else E
     J = numpy.array(case["J"] if J is None else J, dtype=float)
     dip = numpy.array(case["dip"] if dip is None else dip, dtype=float) * scale
@@ -187,6 +188,15 @@ def response(qr, case, out, E=None, J=None, dip=None, widths=None, pol=None, rot
             for k in pre_t2:
                 calc.calculate_one_system(float(t2a.data[k]), agg, eUt, lab)
         tw = calc.calculate_one_system(float(t2a.data[case["t2_index"]]), agg, eUt, lab)
+        # the pathway generator takes the waiting-time evolution either as the complete evolution superoperator or as the superoperator at
+        # t2 plus the Hamiltonian: the same pathways with the same prefactors either way
+        if base_call and case["t2_index"] > 0:
+            types_ = ("R1g", "R2g", "R3g", "R4g")
+            t2v = float(t2a.data[case["t2_index"]])
+            pa = agg.liouville_pathways_3T(ptype=types_, eUt=eUt, t2=t2v, lab=lab)
+            pb = agg.liouville_pathways_3T(ptype=types_, eUt=eUt.at(t2v), ham=H, t2=t2v, lab=lab)
+            sig = lambda pws: sorted((str(p.pathway_name), tuple(int(x) for x in numpy.ravel(p.states)), complex(p.pref)) for p in pws)
+            _state["pw_routes"] = (sig(pa), sig(pb))
         res = {}
         for f in (qr.signal_TOTL, qr.signal_REPH, qr.signal_NONR):
             tw.set_data_flag(f)
@@ -213,6 +223,17 @@ def run_case(case, ctx):
     finally:
         _state["on"] = False
     seen = _state["seen"]
+    routes = _state.pop("pw_routes", None)
+    if routes is not None:
+        ra, rb = routes
+        same = len(ra) == len(rb) and all(x[0] == y[0] and x[1] == y[1] for x, y in zip(ra, rb))
+        ctx.require("uncoupled==sum-of-molecules" if case["cls"] == "uncoupled" else "total==reph+nonr", same,
+                    dict(det, what="pathways generated from the complete evolution superoperator vs from the superoperator at t2: different sets", n=[len(ra), len(rb)]))
+        if same and ra:
+            sc_ = max(abs(x[2]) for x in ra) or 1.0
+            ctx.check("prefactor==exact-orientational-average", max(abs(x[2] - y[2]) for x, y in zip(ra, rb)), 1e-12 * sc_,
+                      dict(det, what="prefactors of the pathways generated from the complete evolution superoperator vs from the superoperator at t2", pathways=len(ra)))
+        ctx.event("pathway_sets_compared_between_the_two_ways_of_passing_the_evolution")
     ctx.event("pathway_prefactors_checked", seen)
     ctx.note("pathways", npw)
     ok = all(base[f] is not None for f in base)
